@@ -554,6 +554,9 @@ func (sp *sourcePrinter) splitIntoRanges(prof *profile.Profile, addrMap map[uint
 		}
 	}
 	sort.Slice(addrs, func(i, j int) bool { return addrs[i] < addrs[j] })
+	// addrMap is a map: process the addresses without object file in a
+	// fixed order too, the listing depends on the order they are added in.
+	sort.Slice(unprocessed, func(i, j int) bool { return unprocessed[i] < unprocessed[j] })
 
 	const expand = 500 // How much to expand range to pick up nearby addresses.
 	var result []addressRange
